@@ -27,4 +27,4 @@ try:
     json.dump(meta, open(d + "meta.json", "w"), indent=1)
 finally:
     subprocess.run("git -C /repo worktree remove --force %s" % wt, shell=True)
-    shutil.rmtree("/verif/.work/alt/" + wt.strip("/").replace("/", "_"), ignore_errors=True)
+    shutil.rmtree(os.environ.get("VERIF_ROOT", "/verif") + "/.work/alt/" + wt.strip("/").replace("/", "_"), ignore_errors=True)
